@@ -100,19 +100,49 @@ def extract(src):
         raise RuntimeError(f"translate/line_after_column: binding of `{col}` not found")
     expr = b.group(1).strip()
     if re.fullmatch(r"m\.column", expr):
-        return True, col, expr
+        return True, col, expr, decoded_parts(body, stmt, col)
     if re.search(r"char_offset|\.chars\(\)", expr):
-        return False, col, expr
+        return False, col, expr, False
     raise RuntimeError(f"translate/line_after_column: cannot classify `let {col} = {expr}` (byte column or character offset?)")
+
+
+def decoded_parts(body, stmt, col):
+    """Are `line_after` and `char_offset` built from the separately decoded text before / after the match?
+      True   `line_after` decodes two slices of the RAW line (`String::from_utf8_lossy(&line[..COL])`, `…(&line[END..])`), guarded
+             by a comparison of the raw slice with the content, and `char_offset` counts the characters of the decoded head;
+      False  `line_after` slices the decoded line (`line_string.get(COL..)`) and `char_offset` is
+             `byte_offset_to_char_offset(&line_before, m.column)`;
+    a mixture raises."""
+    raw = re.search(r"let\s+line\s*=\s*lines\[", body) is not None
+    la_parts = raw and re.search(r"from_utf8_lossy\(\s*&line\[\s*\.\.\s*" + re.escape(col) + r"\s*\]\s*\)", stmt) is not None \
+        and re.search(r"from_utf8_lossy\(\s*&line\[\s*\w+\s*\.\.\s*\]\s*\)", stmt) is not None \
+        and re.search(r"line\s*\.get\(\s*" + re.escape(col) + r"\s*\.\.\s*\w+\s*\)\s*==\s*Some\(\s*content\.as_bytes\(\)\s*\)", stmt) is not None
+    la_string = re.search(r"line_string\s*\.get\(\s*" + re.escape(col) + r"\s*\.\.\s*\)", stmt) is not None
+    m = re.search(r"\blet\s+char_offset\s*=", body)
+    if not m:
+        raise RuntimeError("translate/line_after_column: `let char_offset =` not found in generate_hunks")
+    cstmt = statement(body, m.end())
+    co_parts = re.search(r"from_utf8_lossy\(\s*head\s*\)\s*\.chars\(\)\s*\.count\(\)", cstmt) is not None \
+        and re.search(r"line\s*\.get\(\s*\.\.\s*" + re.escape(col) + r"\s*\)", cstmt) is not None
+    co_string = re.fullmatch(r"\s*byte_offset_to_char_offset\(\s*&line_before\s*,\s*m\.column\s*\)\s*", cstmt) is not None
+    if la_parts and co_parts and not la_string:
+        return True
+    if la_string and co_string and not la_parts:
+        return False
+    raise RuntimeError("translate/line_after_column: cannot tell whether generate_hunks decodes the text before/after the match "
+                       f"separately (line_after parts={la_parts} string={la_string}, char_offset parts={co_parts} string={co_string})")
 
 
 def run():
     src = open(os.path.join(common.REPO, "renamify-core/src/scanner.rs")).read()
-    flag, col, expr = extract(src)
+    flag, col, expr, parts = extract(src)
     out = ["/- GENERATED by translate/line_after_column.py from renamify-core/src/scanner.rs (generate_hunks) — do not edit -/",
            "namespace Gen", "",
            f"/-- is the position at which `generate_hunks` splices a match into the line (`{col} = {expr}`) the match's byte column? -/",
            f"def lineAfterColumnIsByte : Bool := {'true' if flag else 'false'}",
+           "",
+           "/-- are `line_after` and `char_offset` computed from the separately decoded text before / after the match (raw line slices)? -/",
+           f"def lineAfterDecodesParts : Bool := {'true' if parts else 'false'}",
            "", "end Gen", ""]
     path = os.path.join(common.LEAN, "RModel/Gen/LineAfterColumn.lean")
     return [("Gen/LineAfterColumn.lean", common.write_if_changed(path, "\n".join(out)))]
